@@ -12,6 +12,8 @@ fn main() {
     let mut ctx = Ctx::new(args.clone());
     match args.engine.as_str() {
         "noop" => {}
+        "codec" => wpmon::engines::codec::run(&mut ctx),
+        "codec-stream" => wpmon::engines::codec::run_stream(&mut ctx),
         "deque-c15" => wpmon::engines::deque::run_c15(&mut ctx),
         "deque-c16" => wpmon::engines::deque::run_c16(&mut ctx),
         other => {
